@@ -677,7 +677,7 @@ def events_of(job, o):
             val = pushed[state['pi']]
             state['pi'] += 1
             if v.get('expect', UNKNOWN) is not UNKNOWN and (val != v['expect'] or type(val) is not type(v['expect'])):
-                state['mismatch'].append((v['src'], repr(v['expect']), repr(val)))
+                state['mismatch'].append((v['src'], repr(v['expect']), repr(val), v.get('form', '')))
         else:
             val = v.get('expect', UNKNOWN)
             if val is UNKNOWN:
@@ -1018,6 +1018,12 @@ def check_cases(ctx, cases, model_ok, tag='c19'):
     ctx.extra.setdefault('skipped', {})
     for k, v in skipped.items():
         ctx.extra['skipped'][k] = ctx.extra['skipped'].get(k, 0) + v
+    for mmv in value_mismatch:
+        # a literal written in the script is the value that is written out: no computation lies between (print "mac" writes mac,
+        # whatever else is called mac)
+        if len(mmv) > 3 and mmv[3].startswith('literal-'):
+            ctx.counterexample('C19/literal-written-as-something-else', 'the literal %s is handed to the output as %s' % (mmv[0], mmv[2]),
+                               {'source': mmv[0], 'expected': mmv[1], 'observed': mmv[2]})
     if value_mismatch:
         ctx.extra.setdefault('value_differs_from_python_semantics', [])
         ctx.extra['value_differs_from_python_semantics'] += value_mismatch[:5]
